@@ -27,7 +27,7 @@ ALL = {
           "order and direct adjacency inside a unit: Props/Order.v (order-respecting moves - in particular every move the generator model produces - keep every precedence arc ordered and direct successors adjacent; needed hypotheses shown by counterexamples); stop groups: Props/Units.v (defect witnesses, rollback) and Props/GroupInv.v (bookkeeping stays consistent under succeeding group-level operations when there are no initial stops); alternates and fixed stops are decided by the oracles on implementation snapshots and solver output only."),
  "C04": E("proof", "Coq theorems (Props/C04.v): in every reachable state the cached cells of every route equal the independent forward pass from_scratch over the route's stop sequence; history independence; the forward-walk equations in terms of the input. " + ENGINE_TIE,
           "Coq proof (refinement: incremental propagation = from-scratch recomputation, induction over histories) + correspondence + oracle from the input"),
- "C05": E("proof", "Coq theorems (Props/C05.v): total = sum of terms, terms = recomputation from routes, unplanned penalty = penalties of exactly the units not on routes, history independence. " + ENGINE_TIE,
+ "C05": E("proof", "Coq theorems (Props/C05.v): total = sum of terms, terms = recomputation from routes, unplanned penalty = penalties of exactly the units not on routes, history independence. The terms outside the model (early / late arrival, min stops, stop balance, capacity excess, alternates) are re-evaluated from the routes and the input on solver output only. " + ENGINE_TIE,
           "Coq proof (invariant scores_ok/colls_ok) + correspondence (exact term values per step) + oracle"),
  "C06": E("proof", "Coq theorems (Props/C06.v) over ALL operator-result oracles and ALL schedules of the parallel-solver LTS: delivered scores strictly decreasing, first = (min) start score, last = best, nothing lost at close; Reset-to-better refuted and excluded by hypothesis. Tie: the REAL solver loop (NewSkeletonSolver: Solve/invoke/Reset) driven by a scripted operator vs the extracted SolverLoop.srun on generated operator scripts (scores sent, best, work); best-tracking projection of the skeletons regenerated from solve_solver.go / solve_solver_parallel.go equals the reviewed reference (Coq obligation each run); score sequences of the real solver under many option sets.",
           "Coq proof on protocol model + differential correspondence of the real loop under scripted operators + regenerated-skeleton obligations + recorded channel traces",
@@ -36,10 +36,10 @@ ALL = {
           "Coq proof (rollback = identity under the engine invariant) + correspondence on rollback-heavy histories (moves built without estimates)"),
  "C08": E("proof", "Coq theorems (Props/C08.v): planned/unplanned partition, no duplicates, planned iff all stops on routes, unplanned iff none, on all reachable states. " + ENGINE_TIE,
           "Coq proof (invariant) + correspondence (collections as sets per step) + oracle"),
- "C09": E("proof", "Coq theorems (Props/C09.v): for every reachable state and every well-formed move, if all constraint estimates accept the move (Model/Estimates.v) then the exact checks on the propagated route pass and Execute returns Done; per-constraint soundness lemmas, early exits examined, refuted branches stated with witnesses. Tie: estimate model vs NewMoveStops(...).IsExecutable() and the outcome of Execute on generated histories of checked moves; search: IsExecutable => Execute succeeds and leaves a feasible solution, on the implementation's output.",
+ "C09": E("proof", "Coq theorems (Props/C09.v): for every reachable state and every well-formed move, if all constraint estimates accept the move (Model/Estimates.v) then the exact checks on the propagated route pass and Execute returns Done; per-constraint soundness lemmas, early exits examined (duration groups included: the arrival-only break of the max-wait estimates is refuted, the repaired one proved), refuted branches stated with witnesses; (Props/NoMix.v) the no-mix estimate is sound for its exact rule on every route, unit and placement, no script of plans and un-plans ends in an error. Tie: estimate model vs NewMoveStops(...).IsExecutable(), every built-in estimate asked on its own (violated, SkipVehicle hint) and the outcome of Execute on generated histories of checked moves; Model/NoMix.v vs scripted histories on API-built models; search: IsExecutable => Execute succeeds and leaves a feasible solution, on the implementation's output, also for best / per-vehicle best / explicit moves on full-feature models (time-dependent matrices, multipliers, mixing items, alternates, groups) for which there is no model.",
           "Coq proof (estimate => exact, per constraint) + differential correspondence of the estimate model + oracle",
-          "constraints of the modelled core only (capacity, distance, latest start/end, max wait stop/vehicle, max stops, attributes)."),
- "C10": E("proof", "Coq theorems (Props/C10.v): combine_ascending / generate enumerate exactly the acceptable gap tuples (no duplicates); the order sampler is sound for every Perm tape and complete (exactly the allowed orders, once each) when the sample budget suffices, for the current code; the pre-fix code is refuted (stale direct successor); single-stop selection is executable iff some position is allowed and returns a minimum-cost allowed position, for all coin tapes. Tie: position generator and order generator of /repo (8 seeds) vs the extracted Model/Search.v on states of generated histories; Solution.BestMove vs a brute-force enumeration through NewMoveStops.",
+          "theorems: constraints of the modelled core (capacity, distance, latest start/end, max wait stop/vehicle, max stops, attributes; durations with duration groups) and the no-mix constraint on its own; time-dependent travel, multipliers, alternates only through the model-free full-feature stage."),
+ "C10": E("proof", "Coq theorems (Props/C10.v): combine_ascending / generate enumerate exactly the acceptable gap tuples (no duplicates); the order sampler is sound for every Perm tape and complete (exactly the allowed orders, once each) when the sample budget suffices, for the current code; the pre-fix code is refuted (stale direct successor); single-stop selection is executable iff some position is allowed and returns a minimum-cost allowed position, for all coin tapes - under hint soundness, which (Props/Hints.v) is proved for the modelled estimates in any installed order (a SkipVehicle hint is only given when no placement of the unit on the vehicle passes the estimates). Tie: per-estimate answers and hints on checked plan operations vs Model/Hints.v; position generator and order generator of /repo (8 seeds) vs the extracted Model/Search.v on states of generated histories; Solution.BestMove vs a brute-force enumeration through NewMoveStops.",
           "Coq proof (enumeration = specification, sampler soundness/completeness over all tapes) + differential generator sets + brute-force comparison on the implementation",
           "estimates are parameters (taken from the implementation's own NewMoveStops); PlanAll groups are planned greedily by design and are outside the property's wording."),
  "C11": E("proof", "Coq theorems (Props/C11.v): in a heap model of Copy, fresh treatment of every mutable field implies copy and original observe the same at copy time and are independent under all later writes; an aliased field refutes it. Tie: the field table of solutionImpl/Copy regenerated from /repo (with the source field of every copied slice) equals the reference and satisfies the discipline (Coq obligations each run) + copy-then-mutate histories with snapshots (incl. the cached slack) of every live solution vs the model; a copy must equal its original when taken.",
